@@ -49,11 +49,13 @@ package wire
 //@   nopanic
 //@   requires req != nil && c.transport != nil && c.ctx != nil && ctx != nil
 //@   makechan 1 assume keyed(ch) && chkey(ch) == reqid(req)
+//@   assert call Write: has(c.replyCh, reqid(req)) && unheld(c.mu)   // registered before the request can be answered
 //@   ensures imp(result1 == nil, result0 != nil && reqid(result0) == reqid(req))
 
 //@ func (*ClientConn).readRequestLoop
 //@   props C06
 //@   nopanic
+//@   assert send: !has(c.replyCh, reqid(v)) && unheld(c.mu)   // one delivery per registration (the 1-slot reply channel cannot block the dispatcher), never under the lock
 
 //@ func (*ClientConn).readReliableLoop
 //@   props C06
